@@ -416,7 +416,7 @@ func genBlock(t *rapid.T, n *vx.Node, title string) []txCase {
 	execs := []string{vx.ExWrite, vx.ExWrite, vx.ExPlain, vx.ExOwner, "user." + vx.ExWrite + ".a", "user." + vx.ExWrite + ".b1", "user." + vx.ExPlain + ".c"}
 	var block []txCase
 	// bad local keys abort the whole request, so they are confined to a minority of blocks
-	withBadLocal := rapid.IntRange(0, 99).Draw(t, "localblock") < 20
+	withBadLocal := rapid.SampledFrom([]bool{false, false, false, false, false, false, true}).Draw(t, "localblock")
 	for i, cnt := 0, rapid.IntRange(1, 8).Draw(t, "ntx"); i < cnt; i++ {
 		c := txCase{Ex: title + rapid.SampledFrom(execs).Draw(t, "ex"), Sender: rapid.IntRange(0, nSenders-1).Draw(t, "sender")}
 		nm := namesOf(title, c.Ex)
